@@ -25,7 +25,7 @@ CONFIGS = {
 
 # number of mir_built bodies counted on the tree this framework was developed against; a
 # driver that silently produced (much) less is a hard error, never a pass.
-BODY_FLOOR = {"default": 380, "async": 380, "full": 520}
+BODY_FLOOR = {"default": 400, "async": 410, "full": 530}
 
 
 def tree_hash(repo=REPO):
